@@ -162,3 +162,57 @@ func VerifDatasetSink(store *server.Store, dsm *server.DsManager, name string) S
 func VerifSinkStart(s Sink, r *Runner) error                           { return s.startFullSync(r) }
 func VerifSinkEnd(s Sink, r *Runner) error                             { return s.endFullSync(context.Background(), r) }
 func VerifSinkProcess(s Sink, r *Runner, es []*server.Entity) error    { return s.processEntities(r, es) }
+
+// ---- job configurations across restarts (C14) ----
+
+// VerifJobView is what the API shows of a stored job configuration.
+type VerifJobView struct {
+	ID         string
+	Title      string
+	Paused     bool
+	RetryDelay []int64 // of every reRun handler, as persisted
+	MaxRetries []int
+}
+
+func VerifListJobs(s *Scheduler) []VerifJobView {
+	res := []VerifJobView{}
+	for _, c := range s.ListJobs() {
+		v := VerifJobView{ID: c.ID, Title: c.Title, Paused: c.Paused}
+		for _, t := range c.Triggers {
+			for _, eh := range t.ErrorHandlers {
+				if eh.Type == ErrorHandlerReRun {
+					v.RetryDelay = append(v.RetryDelay, eh.RetryDelay)
+					v.MaxRetries = append(v.MaxRetries, eh.MaxRetries)
+				}
+			}
+		}
+		res = append(res, v)
+	}
+	return res
+}
+
+// VerifEffectiveRetryDelay returns the delay (ns) the reRun handler of a scheduled job would wait.
+func VerifEffectiveRetryDelays(s *Scheduler, jobID string) []int64 {
+	cfg, err := s.LoadJob(jobID)
+	if err != nil || cfg == nil {
+		return nil
+	}
+	jobs, err := s.toTriggeredJobs(cfg)
+	if err != nil {
+		return nil
+	}
+	res := []int64{}
+	for _, j := range jobs {
+		for _, eh := range j.errorHandlers {
+			if eh.Type == ErrorHandlerReRun {
+				res = append(res, eh.RetryDelay)
+			}
+		}
+	}
+	return res
+}
+
+// VerifSetToken persists a continuation token for a job id the way a finished run does.
+func VerifSetToken(r *Runner, jobID string, token string) error {
+	return r.store.StoreObject(server.JobDataIndex, jobID, &SyncJobState{ID: jobID, ContinuationToken: token})
+}
